@@ -190,6 +190,11 @@ def leg_files(ns, node, res, spec):
         if idx % 5 == 0:
             batch.append((data, 'latin-1', ' ', 'whitespace', False, None, False))
             batch.append((data, 'latin-1', ',', 'monocolumn', False, '#', False))
+            # the space-delimited dialects with a comment prefix (a line is a comment iff it STARTS with the prefix: an indented '#' is data)
+            batch.append((data, 'utf-8', ' ', 'whitespace', False, '#', idx % 2 == 0))
+            batch.append((data, 'utf-8', ' ', 'whitespace', True, '#', False))
+            batch.append((data, 'utf-8', ' ', 'quoted', False, '#', False))
+            batch.append((data, 'utf-8', ' ', 'simple', idx % 2 == 1, '#', False))
         if len(batch) >= 3000:
             flush()
     flush()
